@@ -87,9 +87,10 @@ Theorem C08_no_leak : forall b ops,
 Proof. exact no_leak. Qed.
 Print Assumptions C08_no_leak.
 
-(** an effect whose arena entry was released never runs again: its task ends at the next poll *)
+(** an effect whose arena entry was released (Effect) or whose handle was dropped (RenderEffect)
+    never runs again: its task ends at the next poll *)
 Theorem C08_disposed_effect_never_runs : forall s i e,
-  nth_error (effs s) i = Some e -> contains (b_core s) (e_key e) = false -> e_done e = false ->
+  nth_error (effs s) i = Some e -> eff_alive s e = false -> e_done e = false ->
   let s' := poll i s in
   (exists ef, nth_error (effs s') i = Some ef /\ e_done ef = true) /\
   forall j, In (LEff j) (clog (b_core s')) -> In (LEff j) (clog (b_core s)).
